@@ -6,7 +6,7 @@
     on 8-byte strings with a multi-byte character across byte 4:
     [C14_unfixed_panicked]). *)
 From DicomV Require Import Base.RustStr Proofs.RustStrP Model.TagText Model.TagTextStd
-  Proofs.TagTextP Proofs.TagTextStdP.
+  Proofs.TagTextP Proofs.TagTextStdP Proofs.TagTotalP.
 From DicomV Require Import Gen.GenKeywords.
 
 (** ---------------------------------------------------------------- tags *)
@@ -76,6 +76,43 @@ Theorem C14_tag_keys : forall by_name f g e gd ed,
   hex4_of g gd -> hex4_of e ed -> good_key by_name (tag_text f gd ed) (g, e).
 Proof. exact tag_text_good_key. Qed.
 
+(** ---------------------------------------------------------------- totality (no panic) on every string
+    Every place of the real code that can panic is an explicit [Panic] in the
+    model, guarded exactly as in the code: [split_at] / [&s[a..]] / [&s[a..b]]
+    (character boundary, range), [from_str_radix(..).expect(..)], and the
+    debug-only [debug_assert!(steps.len() < 256)] of AttributeSelector::new.
+    [find], [split], [parse::<u32>()], [ends_with] return options/results. *)
+
+(** DataDictionary::parse_tag never panics *)
+Theorem C14_parse_tag_total : forall by_name (cps : str) w,
+  parse_tag_dict by_name (utf8 cps) <> Panic w.
+Proof. intros. apply parse_tag_dict_no_panic, utf8_ascii_sync. Qed.
+
+(** DataDictionary::by_expr never panics (entry type and both look-ups abstract) *)
+Theorem C14_by_expr_total : forall (E : Type) (by_tag : tag -> option E) by_name_e (cps : str) w,
+  by_expr by_tag by_name_e (utf8 cps) <> Panic w.
+Proof. intros. apply by_expr_no_panic, utf8_ascii_sync. Qed.
+
+(** DataDictionary::parse_selector never panics in a RELEASE build, for any
+    dictionary and any string *)
+Theorem C14_selector_total : forall by_name (cps : str) w,
+  parse_selector by_name false (utf8 cps) <> Panic w.
+Proof. intros. apply parse_selector_release_total, utf8_ascii_sync. Qed.
+
+(** ... and in a DEBUG build the only panic is the debug assertion of
+    AttributeSelector::new, reached exactly by texts of 256 or more parts that
+    all parse (this one stays outside the totality claim) *)
+Theorem C14_selector_panic_only_debug : forall by_name dbg (cps : str) w,
+  parse_selector by_name dbg (utf8 cps) = Panic w ->
+  dbg = true /\ w = P_debug_assert /\ (256 <= length (split_on dot (utf8 cps)))%nat.
+Proof. intros by_name dbg cps w. apply parse_selector_panic_only_debug, utf8_ascii_sync. Qed.
+
+(** TagRange::from_str ("(60xx,3000)" forms) and VR::from_str never panic *)
+Theorem C14_tag_range_total : forall (cps : str) w, tag_range_from_str (utf8 cps) <> Panic w.
+Proof. intros. apply tag_range_no_panic, utf8_ascii_sync. Qed.
+Theorem C14_vr_total : forall s w, vr_from_str s <> Panic w.
+Proof. exact vr_from_str_no_panic. Qed.
+
 (** ---------------------------------------------------------------- keywords
     Complete sweep over the keyword table regenerated from the code on every
     run (kw_rows: one row per alias of dictionary-std/src/tags.rs plus the two
@@ -139,6 +176,16 @@ Check C14_keywords : forall r,
 Check C14_keyword_selectors : forall dbg ks,
   ks <> [] -> Forall std_key ks ->
   parse_selector std_by_name dbg (spelled_text ks) = sel_result dbg (map snd ks).
+Check C14_selector_total : forall by_name (cps : str) w,
+  parse_selector by_name false (utf8 cps) <> Panic w.
+Check C14_parse_tag_total : forall by_name (cps : str) w,
+  parse_tag_dict by_name (utf8 cps) <> Panic w.
+Print Assumptions C14_parse_tag_total.
+Print Assumptions C14_by_expr_total.
+Print Assumptions C14_selector_total.
+Print Assumptions C14_selector_panic_only_debug.
+Print Assumptions C14_tag_range_total.
+Print Assumptions C14_vr_total.
 Print Assumptions C14_tag_forms.
 Print Assumptions C14_tag_print.
 Print Assumptions C14_exact.
